@@ -143,6 +143,25 @@ def sym_old_style(vc):
                    'unbounded); the per-dict any() is decided for dicts of every size' % (shapes,))
 
 
+def replay_old_style(h, cex, obligation):
+    """the solver's counterexample of a failed old-style-conditions obligation: the row and the equals / not_equals dicts"""
+    import re as _re
+    from contracts import replayers as R
+    from dataflows.processors.filter_rows import old_style_conditions
+    m = _re.search(r'\[(\d+),(\d+)\]', obligation)
+    if not m:
+        return 'not-concretisable'
+    ne, nn = int(m.group(1)), int(m.group(2))
+    row = (R.rows(cex, 'row') or [{}])[0]
+    equals = [(R.rows(cex, 'eq%d' % i) or [{}])[0] for i in range(ne)]
+    not_equals = [(R.rows(cex, 'ne%d' % i) or [{}])[0] for i in range(nn)]
+    sp = h.spec(SPEC)
+    want = h.run(lambda: sp['old_style'](row, equals, not_equals))
+    got = h.run(lambda: old_style_conditions(equals, not_equals)(row))
+    ok = (want[0] == got[0] == 'ok' and bool(want[1]) == bool(got[1])) or (want[0] == got[0] == 'exc' and want[1] == got[1])
+    h.check(ok, 'dataflows/processors/filter_rows.py::old_style_conditions.func', dict(row=row, equals=equals, not_equals=not_equals), want[:2], got[:2])
+
+
 def nat_old_style(h):
     from dataflows.processors.filter_rows import old_style_conditions
     from dataflows import Flow, filter_rows
@@ -603,7 +622,7 @@ ITEMS = [
     _K10._mk_matcher_item(),
     Item('filter_rows.process_resource', sym_filter_process_resource, [('differential', nat_filter_process_resource)], fnkey='dataflows/processors/filter_rows.py::process_resource', replay=replay_filter_process_resource),
     Item('filter_rows.old_style_conditions', sym_old_style, [('differential', nat_old_style)],
-         'dataflows/processors/filter_rows.py::old_style_conditions.func'),
+         'dataflows/processors/filter_rows.py::old_style_conditions.func', replay=replay_old_style),
     Item('filter_rows.func', sym_filter_func, [], 'dataflows/processors/filter_rows.py::filter_rows.func'),
     Item('deduplicate.deduper', sym_deduper, [('differential', nat_deduper)], 'dataflows/processors/deduplicate.py::deduper'),
     Item('deduplicate.func', sym_dedup_func, [], 'dataflows/processors/deduplicate.py::deduplicate.func'),
